@@ -640,6 +640,8 @@ def strat_history(draw, tier):
         st.tuples(st.just("repeat"), st.integers(0, 30)),
         st.tuples(st.just("far"), st.sampled_from([0.9999, 0.999999, 1 - 2.0 ** -53])),
         st.tuples(st.just("batch"), st.lists(st.floats(0, 1, exclude_max=True), min_size=1, max_size=5)),
+        # the public cost bookkeeping calls the engines make between runs and passes
+        st.tuples(st.just("reset-cost"), st.just(0.0)),
     ), min_size=4, max_size=30))
     return {"model": spec, "grid": g, "method": draw(st.sampled_from(["INVERSION", "BINARYSEARCHTREEADAPTED1D"])),
             "ops": [[o[0], o[1]] for o in ops]}
@@ -661,6 +663,11 @@ def body_history(case):
         return int(_fresh_sampler(proc, grid, method).sample_with_u(u))
 
     for op, arg in case["ops"]:
+        if op == "reset-cost":
+            proc.reset_one_simulation_cost()
+            if hasattr(smp, "reset_sampling_cost"):
+                smp.reset_sampling_cost()
+            continue
         if op in ("draw", "far"):
             us = [float(arg)]
         elif op == "repeat":
@@ -694,7 +701,7 @@ def body_history(case):
 def classify_history(case):
     ops = [o[0] for o in case["ops"]]
     labels = [case["method"]] + sorted(set(ops))
-    return labels, ("repeat" in ops and ("far" in ops or "batch" in ops))
+    return labels, ("repeat" in ops and ("far" in ops or "batch" in ops or "reset-cost" in ops))
 
 
 SUBCHECKS = [
